@@ -486,6 +486,7 @@ pub fn main_entry() -> i32 {
         "worker" => worker_main(&args[1..]),
         "replay" => replay_main(&args[1..]),
         "emit-fingerprint" => crate::props::c14::emit_fingerprint(&args[1]),
+        "emit-corpus" => crate::props::c13::emit_corpus(&args[1]),
         "list" => {
             for id in props::all_ids() {
                 println!("{id}");
